@@ -711,13 +711,27 @@ class ObjectMethod(DeserializationMethod):
                 for key in data.keys() - self.all_aliases:
                     values[key] = data[key]
         if self.validators:
+            # names of the fields which could not be deserialized (field_errors is
+            # keyed by aliases, while init parameters and dependencies are names)
+            invalid_names: set = set()
+            if field_errors:
+                invalid_names.update(
+                    f.name for f in self.fields if f.alias in field_errors
+                )
+            if self.aggregate_fields and (field_errors or errors):
+                aggregate_fields: list = [*self.flattened_fields, *self.pattern_fields]
+                if self.additional_field is not None:
+                    aggregate_fields.append(self.additional_field)
+                invalid_names.update(
+                    f.name for f in aggregate_fields if f.name not in values
+                )
             init = None
             if self.init_defaults:
                 init = {}
                 for name, default_factory in self.init_defaults:
                     if name in values:
                         init[name] = values[name]
-                    elif not field_errors or name not in field_errors:
+                    elif name not in invalid_names:
                         assert default_factory is not None
                         init[name] = default_factory()
             aliases = values.keys()
@@ -727,12 +741,7 @@ class ObjectMethod(DeserializationMethod):
             ]
             if field_errors or errors:
                 error = ValidationError(errors or [], field_errors or {})
-                invalid_fields = self.post_init_modified
-                if field_errors:
-                    # field_errors is keyed by aliases, dependencies hold names
-                    invalid_fields = invalid_fields | {
-                        f.name for f in self.fields if f.alias in field_errors
-                    }
+                invalid_fields = self.post_init_modified | invalid_names
                 try:
                     validate(
                         ValidatorMock(self.constructor.cls, values),
